@@ -13,6 +13,7 @@ def setup(E):
     # reply type other than SSH2_AGENT_SIGN_RESPONSE (14) must raise: stated as: a normal return implies type 14
     c = E.contracts[A + "AgentKey.sign_ssh_data"]
     c["ensures"]["only_sign_response_accepted"] = "ghost('reply_type') == 14"
+    c["requires"]["fresh"] = "not ghost('stream_short')"
     E.declare_ghost(reply_type="int")
     E.contracts[A + "AgentSSH._send_message"]["ghost"]["reply_type"] = "result[0]"
 
